@@ -131,6 +131,9 @@ PINNED = [
      "... and when the name is the length of a Buffer the table is rejected"),
     ("EmptyBufferInDeferred", "B", [method("MAIN", 1), While(loc(0)), ret(buf(one)), inc0, close, close, end],
      "a Buffer with an empty initializer list inside a While takes the bytes that follow it as its contents (its package end is popped too early)"),
+    ("D1", "B", [name("NAM0", byte(7)), scope("\\_SB_"), name("PKG0", pkg(1, ref("^NAM0"))), close, end],
+     "D1 widened: a ^ in a name used inside a term (package element, operand, argument) is counted from the NODE that holds the name, not from the "
+     "current scope: Package(1){^NAM0} written in Scope(\\_SB_) does not designate \\NAM0"),
     ("D5", "B", [method("MTH2", 2), ret(arg(0)), close] + M1 + [method("MAIN", 2), X(call("MTH1", call("MTH2", arg(0), op("Add", arg(0), arg(1))))), close, end],
      "D5 made precise: an operator term among the arguments of an invocation works only as the LAST argument of an invocation that is not itself an argument"),
     ("D6", "B", [name("NAM0", byte(7)), method("MAIN", 1), While(loc(0)), stmt("store", buf(ref("NAM0"), 1), loc(1)), close, close, end],
@@ -163,7 +166,7 @@ REPRESENTATION_NOTES = [
 ]
 GENUINE = {"IndexFieldNamed": True, "AliasKeepsSourceName": True, "ExternalIsObject": False, "CreateFieldNotNamed": True, "PackageMethodRefInvoked": True,
            "VarPackageCountByte": True, "MatchOperatorBytes": True, "LoadTableSevenOperands": True, "IfBodyFlattened": True, "RelPathInTerm": True,
-           "ValueNamesFromFinalPlace": True, "EmptyBufferInDeferred": True, "D5": True, "D6": True, "D7": True}
+           "ValueNamesFromFinalPlace": True, "EmptyBufferInDeferred": True, "D1": True, "D5": True, "D6": True, "D7": True}
 
 
 def describe(toks):
